@@ -65,7 +65,7 @@ get_std_fds = Fn(U, '_get_std_fds', ret='r', pre_rewrites=RW, add_params='Tracke
     ],
     decreases='redirects@.len()',
     hints={'after-text:fd_out = _fd_candidate;':
-           'assert(only_returned_opened(old(k).fds, k.fds, fd_out, fd_err)); '
+           'LABEL:C08+C04.bfd.mid.only_returned_after_stdout_side: assert(only_returned_opened(old(k).fds, k.fds, fd_out, fd_err)); '
            'assert(match fd_out { Some(x) => x >= 0 ==> k.fds.contains_key(x as int), None => true }); '
            'assert(match fd_err { Some(y) => y >= 0 ==> k.fds.contains_key(y as int), None => true });'},
     loops={0: Loop(invariant=[
